@@ -22,7 +22,7 @@ def handle (st : DState) (line : String) : DState × String :=
   | some (.list [.atom "eval", .atom id, env, .atom start, ex]) =>
     match findDoc st id, decEnv env, decNat start, decExpr ex with
     | some a, some en, some s, some e =>
-      (st, s!"model={encResult (Model.run a en s e)} spec={encResult (Spec.run a en s e)}")
+      (st, s!"model={encResult (Model.run a en s e)} spec={encResult (Spec.run a en s e)} speckf={encResult (Spec.runKF a en s e)}")
     | none, _, _, _ => (st, "bad-doc")
     | _, none, _, _ => (st, "bad-env")
     | _, _, none, _ => (st, "bad-start")
